@@ -128,6 +128,7 @@ Norm(pl, ty, r) ==
   ELSE Abandon("wrap-around of an unsigned type of 32 or more bits")
 
 Wide == Abandon("result outside TLC's integers")
+InRep(r) == IF r < -TMAX THEN Wide ELSE Ok(r)      \* -2^31 itself is kept out of the explored range
 
 -----------------------------------------------------------------------------
 (* Bitwise operators on two's complement values.  And/Or/Xor on naturals    *)
@@ -170,9 +171,9 @@ Arith(pl, ty, op, a, b) ==
     [] op = "%" -> IF b = 0 THEN Ub("division by zero")
                    ELSE IF IsSigned(ty) /\ Narrow(pl, ty) /\ a = NMin(pl, ty) /\ b = -1 THEN Ub("signed overflow")
                    ELSE Ok(TruncRem(a, b))
-    [] op = "&" -> Ok(BitAnd(a, b))
-    [] op = "|" -> Ok(BitOr(a, b))
-    [] op = "^" -> Ok(BitXor(a, b))
+    [] op = "&" -> InRep(BitAnd(a, b))
+    [] op = "|" -> InRep(BitOr(a, b))
+    [] op = "^" -> InRep(BitXor(a, b))
 
 \* Shifts (6.5.7): ty is the promoted type of the left operand, a has that type, n is the count (any integer type).
 Shift(pl, ty, op, a, n) ==
@@ -199,7 +200,7 @@ Compare(op, a, b) ==
 Unary(pl, ty, op, a) ==
   CASE op = "-" -> Norm(pl, ty, -a)
     [] op = "+" -> Ok(a)
-    [] op = "~" -> IF IsSigned(ty) THEN Ok(Inv(a))
+    [] op = "~" -> IF IsSigned(ty) THEN InRep(Inv(a))
                    ELSE IF Narrow(pl, ty) THEN Ok(NMax(pl, ty) - a) ELSE Abandon("~ of a wide unsigned value")
     [] op = "!" -> Ok(IF a = 0 THEN 1 ELSE 0)
 
